@@ -62,6 +62,10 @@ EXPLANATION += (
     ' Round 5: path-bearing messages are not raised as KeyError, whose repr rendering hides the path from the sanitiser (R-ROLE/path-in-message/rendered-as-text); settings are forwarded (R-FWD).'
 )
 
+EXPLANATION += (
+    ' Round 8: every alternative of the recorded module path is relative to the package (R-MUST/module-relative).'
+)
+
 RULE_TEXT = (
     "one obligation per emitted value (config, log, log file, module), "
     "per removed key, per path interpolation site")
